@@ -199,6 +199,27 @@ def check_prims(ctx, rep):
         cmp("pathlib parts/is_absolute/anchor", rw, got, (list(p.parts), p.is_absolute(), p.anchor))
         q = pathlib.Path(*rw)   # the class the code uses is the posix one here
         cmp("pathlib.Path is posix", rw, (list(q.parts), q.is_absolute(), q.anchor), (list(p.parts), p.is_absolute(), p.anchor))
+    # ---------------- pathlib operations of the third wave's stage 8 (PyPath.v, Path.v): relative_to / is_relative_to / joinpath(path)
+    if "prim_path2" in vlib.fn_table():
+        import os
+        for a in [[s] for s in segs] + [[s, t] for s in segs[:9] for t in segs[:9]] + [[]]:
+            for b in [[s] for s in segs] + [[s, t] for s in segs[:6] for t in segs[:6]] + [[]]:
+                pa, pb = pathlib.Path(*a), pathlib.Path(*b)
+                try:
+                    r = pa.relative_to(pb)
+                    want_rel = [0, str(r)]
+                except ValueError:
+                    want_rel = [1, 6]
+                g = model.call("prim_path2", [[[ord(c) for c in s] for s in a], [[ord(c) for c in s] for s in b]])
+                got_rel = [0, "".join(chr(c) for c in g[0][1][1])] if g[0][0] == 0 else g[0]
+                cmp("pathlib relative_to/is_relative_to/joinpath", (a, b),
+                    (got_rel, g[1] == 1, "".join(chr(c) for c in g[2])), (want_rel, pa.is_relative_to(pb), str(pa.joinpath(pb))))
+                if g[0][0] == 0:      # the segments of the result are the ones pathlib stores
+                    cmp("pathlib relative_to raw segments", (a, b), ["".join(chr(c) for c in x) for x in g[0][1][0]], list(r._raw_paths))
+        cmp("pathlib.Path.cwd() is Path(os.getcwd())", "", (str(pathlib.Path.cwd()), list(pathlib.Path.cwd()._raw_paths)), (os.getcwd(), [os.getcwd()]))
+        cmp("pathlib.Path(p) of a path keeps it", "", list(pathlib.Path(pathlib.Path("a", "/b", "c"))._raw_paths), ["a", "/b", "c"])
+        cmp("joinpath appends raw segments", "", (list(pathlib.Path("a").joinpath("b/")._raw_paths), list(pathlib.Path("a").joinpath(pathlib.Path("/b", "c"))._raw_paths)),
+            (["a", "b/"], ["a", "/b", "c"]))
     # ---------------- later waves (each guarded by the presence of its dispatcher entry)
     for extra in (_check_stat, _check_re, _check_buffer):
         extra(model, vlib, cmp, rng)
